@@ -17,7 +17,7 @@
 EXTENDS Integers, Sequences, FiniteSets, TLC, Json, Randomization
 
 CONSTANTS L,        \* number of call slots of a document program
-          Gen,      \* "all"/"all1": every program | "random": NRand random programs | "info": metadata sweep | "mc" | "trace"
+          Gen,      \* "all"/"all1": every program | "random": NRand random programs | "info": metadata sweep | "far" | "std" | "cover": glyph coverage | "mc" | "trace"
           Alpha,    \* "small" | "full" call alphabet
           NRand
 
@@ -35,7 +35,12 @@ SumSeq(s) == IF s = <<>> THEN 0 ELSE Head(s) + SumSeq(Tail(s))
 \*   image   a = image (1 opaque, 2 and 3 with alpha => SMask)   b = encoding (0 lossless, 1 lossy/DCT)
 \*           c = 1: drawn under a singular matrix (x scale 0: the transformed image has no width)
 \*   text    a = font (1 TrueType "A", 2 CFF "B", 3 standard Type1 "Helvetica")  b = string (1, 2 plain; 3..8 with ( ) \ ; 9: exactly 296 distinct glyphs, so that the last
-\*           two-byte code is 0x0128 whose low byte is "(" )  c = vertical
+\*           two-byte code is 0x0128 whose low byte is "(" ;  10, 11: glyph COVERAGE of the string by the selected font -
+\*           10 = no character is covered (U+4E2D U+6587: every glyph shown is .notdef, glyph 0), 11 = mixed ("A" + U+4E2D);
+\*           1..9 are fully covered)  c = vertical
+\*           The protocol does not depend on b: a font selected by a text call reserves its number at first use and is
+\*           written at Close whatever glyphs were shown with it (Exec / Close below never look at c.b), so the number
+\*           in the page's /Font resources always resolves - also for a font of which only .notdef is shown.
 \*   link    a = uri class       newpage / skip: no arguments
 Call(k, a, b, c, d) == [k |-> k, a |-> a, b |-> b, c |-> c, d |-> d]
 Skip == Call("skip", 0, 0, 0, 0)
@@ -63,6 +68,7 @@ FullCalls ==
      \cup {Call("image", i, e, sg, 0) : i \in 1..3, e \in 0..1, sg \in 0..1}
      \cup {Call("text", f, s, 0, 0) : f \in 1..2, s \in 1..2} \cup {Call("text", f, 2, 1, 0) : f \in 1..2}
      \cup {Call("text", 3, s, 0, 0) : s \in 1..8}      \* standard font: also the strings with parentheses and backslash
+     \cup {Call("text", f, s, v, 0) : f \in 1..2, s \in 10..11, v \in 0..1}   \* strings the embedded font covers not at all / partly
      \cup {Call("link", u, 0, 0, 0) : u \in 1..2}
      \cup {NewPageC} \cup {View(1), View(2)}
 Calls == IF Alpha = "small" THEN SmallCalls ELSE FullCalls
@@ -231,6 +237,15 @@ Init ==
                                   \* a text with exactly 296 distinct glyphs of the embedded TrueType font
                                   \cup {<<Call("text", 1, 9, 0, 0), b, Skip>> : b \in {Skip, Call("text", 1, 1, 0, 0), NewPageC}}
                             /\ opts \in {OneTrue(TRUE), OneTrue(FALSE)} /\ info = Mixed /\ infoAt = 0
+       [] Gen = "cover" ->  \* glyph coverage: a text of which the selected embedded font covers nothing (10) or only a part (11),
+                            \* alone on its page or document, next to another font, and with / without a covered text in the
+                            \* SAME font before or after it (same page or another page), horizontal and vertical, all option sets
+                            /\ prog \in {<<a, Call("text", f, s, v, 0), b>> :
+                                            a \in {Call("path", 1, 0, 0, 1), Call("text", 1, 1, 0, 0), Call("text", 2, 1, 0, 0), NewPageC},
+                                            f \in 1..2, s \in 10..11, v \in 0..1,
+                                            b \in {Skip, Call("text", 1, 2, 0, 0), Call("text", 3, 1, 0, 0), NewPageC}}
+                                  \cup {<<Call("text", f, 10, 0, 0), NewPageC, Call("text", g, s, v, 0)>> : f \in 1..2, g \in 1..2, s \in {1, 10}, v \in 0..1}
+                            /\ opts \in [compress : BOOLEAN, subset : BOOLEAN] /\ info = Mixed /\ infoAt = 0
        [] Gen = "info" ->   /\ prog = [i \in 1..L |-> IF i = 1 THEN Call("path", 1, 0, 0, 1) ELSE Skip]
                             /\ opts \in (IF NRand = 0 THEN {OneTrue(TRUE)} ELSE {OneTrue(TRUE), OneTrue(FALSE)})
                             /\ info \in InfoSweep /\ infoAt \in {0, 1}
